@@ -1,6 +1,666 @@
-//! C18 (stub)
+//! C18 — DER and RLP integer codecs are canonical and fail closed.
+//!
+//! Oracle: the canonical encodings are built here from `BigUint::to_bytes_be` (DER: tag 0x02,
+//! minimal definite length, minimal content, a leading 0x00 exactly when the top bit of the first
+//! magnitude octet is set, zero = 02 01 00; RLP: minimal big-endian string, zero = 0x80, a single
+//! byte below 0x80 is itself, 0x80+len up to 55 bytes, 0xb7+lenlen beyond). A decoder must return
+//! `Ok(v)` exactly when the input is the canonical encoding of a `v` that fits, otherwise an
+//! error; never a panic.
+
 use super::prelude::*;
+use crypto_bigint::{ArrayEncoding, Encoding};
+use der::asn1::{AnyRef, UintRef};
+use der::{Decode, Encode, EncodeValue, Tag};
+
+// ---------------------------------------------------------------- shared helpers
+
+/// Minimal big-endian magnitude (empty for zero).
+fn magnitude(v: &BigUint) -> Vec<u8> {
+    if v.is_zero() { Vec::new() } else { v.to_bytes_be() }
+}
+
+fn rnd_bytes(c: &mut Ctx, n: usize) -> Vec<u8> {
+    (0..n).map(|_| c.word() as u8).collect()
+}
+
+/// Values for the encoders: the generic corpus plus every byte length with the first octet at the
+/// 0x7f / 0x80 boundary.
+fn codec_values(c: &mut Ctx, limbs: usize, div: usize) -> Vec<BigUint> {
+    let mut v = c.scaled(div, |c| c.inputs1(limbs));
+    for k in 0..8 * limbs as u32 {
+        for top in [0x01u32, 0x7f, 0x80, 0x81, 0xff] {
+            let hi = BigUint::from(top) << (8 * k);
+            v.push(hi.clone());
+            v.push(&hi + (pow2(8 * k) - 1u32));
+            v.push(&hi + (c.rnd(limbs) & (pow2(8 * k) - 1u32)));
+        }
+    }
+    v
+}
+
+// ---------------------------------------------------------------- DER oracle
+
+/// Minimal definite length octets.
+fn der_len(n: usize) -> Vec<u8> {
+    if n < 0x80 {
+        vec![n as u8]
+    } else if n < 0x100 {
+        vec![0x81, n as u8]
+    } else if n < 0x1_0000 {
+        vec![0x82, (n >> 8) as u8, n as u8]
+    } else {
+        vec![0x83, (n >> 16) as u8, (n >> 8) as u8, n as u8]
+    }
+}
+
+/// Canonical content octets of a non-negative INTEGER.
+fn der_content(v: &BigUint) -> Vec<u8> {
+    let mut m = magnitude(v);
+    if m.is_empty() {
+        m.push(0);
+    } else if m[0] & 0x80 != 0 {
+        m.insert(0, 0);
+    }
+    m
+}
+
+fn canonical_der(v: &BigUint) -> Vec<u8> {
+    let content = der_content(v);
+    let mut out = vec![0x02];
+    out.extend(der_len(content.len()));
+    out.extend(content);
+    out
+}
+
+/// `Some(v)` iff `input` is exactly the canonical DER INTEGER of a `v` below 2^bits.
+fn der_oracle(input: &[u8], bits: u32) -> Option<BigUint> {
+    if input.len() < 3 || input[0] != 0x02 {
+        return None;
+    }
+    let hdr = match input[1] {
+        0..=0x7f => 2,
+        0x81 => 3,
+        0x82 => 4,
+        0x83 => 5,
+        _ => return None,
+    };
+    if input.len() <= hdr {
+        return None;
+    }
+    let v = BigUint::from_bytes_be(&input[hdr..]);
+    if v.bits() <= bits as u64 && canonical_der(&v) == input { Some(v) } else { None }
+}
+
+/// `Some(v)` iff `content` is the canonical content of a `v` below 2^bits.
+fn der_content_oracle(content: &[u8], bits: u32) -> Option<BigUint> {
+    if content.is_empty() {
+        return None;
+    }
+    let v = BigUint::from_bytes_be(content);
+    if v.bits() <= bits as u64 && der_content(&v) == content { Some(v) } else { None }
+}
+
+// ---------------------------------------------------------------- DER cases
+
+fn der_encode<const L: usize>(c: &mut Ctx)
+where
+    Uint<L>: ArrayEncoding,
+{
+    let bits = 64 * L as u32;
+    let div = if L > 16 { 8 } else { 2 };
+    for a in codec_values(c, L, div) {
+        if c.done() {
+            return;
+        }
+        let x = bu::<L>(&a);
+        let exp = canonical_der(&a);
+        let content = der_content(&a);
+        check!(c, call(|| x.to_der().ok()), Some(exp.clone()); a);
+        check!(c, call(|| x.encoded_len().ok().map(|l| u32::from(l) as usize)), Some(exp.len()); a);
+        check!(c, call(|| x.value_len().ok().map(|l| u32::from(l) as usize)), Some(content.len()); a);
+        check!(c, call(|| { let mut buf = vec![0u8; exp.len() + 7]; x.encode_to_slice(&mut buf).ok().map(|s| s.to_vec()) }), Some(exp.clone()); a);
+        check!(c, call(|| { let mut buf = Vec::new(); x.encode_to_vec(&mut buf).ok().map(|_| buf) }), Some(exp.clone()); a);
+        // a buffer one octet short is an error, not a truncated encoding
+        check!(c, call(|| { let mut buf = vec![0u8; exp.len() - 1]; x.encode_to_slice(&mut buf).ok().map(|s| s.to_vec()) }), None; a);
+        // decode what was encoded, through every entry point
+        check!(c, call(|| Uint::<L>::from_der(&exp).ok().map(|r| ub(&r))), Some(a.clone()); a);
+        check!(c, call(|| AnyRef::from_der(&exp).ok().and_then(|any| Uint::<L>::try_from(any).ok()).map(|r| ub(&r))), Some(a.clone()); a);
+        check!(c, call(|| UintRef::from_der(&exp).ok().and_then(|u| Uint::<L>::try_from(u).ok()).map(|r| ub(&r))), Some(a.clone()); a);
+        check!(c, call(|| AnyRef::new(Tag::Integer, &content).ok().and_then(|any| Uint::<L>::try_from(any).ok()).map(|r| ub(&r))), Some(a.clone()); a);
+        // UintRef holds a magnitude: any zero padding is fine, the value must be kept
+        let mag = magnitude(&a);
+        let padded = [vec![0u8; 1 + c.below(3)], mag.clone()].concat();
+        let full = [vec![0u8; 8 * L - mag.len()], mag.clone()].concat();
+        for m in [mag, padded, full] {
+            check!(c, call(|| UintRef::new(&m).ok().and_then(|u| Uint::<L>::try_from(u).ok()).map(|r| ub(&r))), Some(a.clone()); m);
+        }
+        debug_assert_eq!(der_oracle(&exp, bits), Some(a.clone()));
+    }
+}
+
+/// Content octet strings around the capacity with the first two octets on their boundaries.
+fn der_contents(c: &mut Ctx, n: usize) -> Vec<Vec<u8>> {
+    let mut lens: Vec<usize> = vec![0, 1, 2, 3, 126, 127, 128, 129, 130, 254, 255, 256, 257, 258, 2 * n, 2 * n + 1];
+    lens.extend(n.saturating_sub(2)..=n + 6);
+    lens.sort();
+    lens.dedup();
+    let mut out = Vec::new();
+    for len in lens {
+        if len == 0 {
+            out.push(Vec::new());
+            continue;
+        }
+        for f0 in [0x00u8, 0x01, 0x7f, 0x80, 0xff] {
+            for f1 in [0x00u8, 0x01, 0x7f, 0x80, 0xff] {
+                for rest in 0..3 {
+                    let mut b: Vec<u8> = match rest {
+                        0 => vec![0u8; len],
+                        1 => vec![0xffu8; len],
+                        _ => rnd_bytes(c, len),
+                    };
+                    b[0] = f0;
+                    if len > 1 {
+                        b[1] = f1;
+                    } else if f1 != 0 {
+                        continue;
+                    }
+                    out.push(b);
+                }
+            }
+        }
+    }
+    out
+}
+
+/// TLV framings of a content string: the canonical one and the malformed ones.
+fn der_framings(c: &mut Ctx, content: &[u8], thorough: bool) -> Vec<Vec<u8>> {
+    let n = content.len();
+    let tlv = |tag: u8, len: Vec<u8>| -> Vec<u8> { [vec![tag], len, content.to_vec()].concat() };
+    let canon = tlv(0x02, der_len(n));
+    let mut v = vec![canon.clone()];
+    // trailing garbage, truncation, length off by one
+    v.push([canon.clone(), vec![0x00]].concat());
+    v.push([canon.clone(), vec![0xff]].concat());
+    v.push(canon[..canon.len() - 1].to_vec());
+    v.push(tlv(0x02, der_len(n + 1)));
+    if n > 0 {
+        v.push(tlv(0x02, der_len(n - 1)));
+    }
+    // non-minimal long forms, indefinite length
+    if n < 0x80 {
+        v.push(tlv(0x02, vec![0x81, n as u8]));
+    }
+    if n < 0x100 {
+        v.push(tlv(0x02, vec![0x82, 0, n as u8]));
+    }
+    v.push(tlv(0x02, vec![0x83, 0, (n >> 8) as u8, n as u8]));
+    v.push(tlv(0x02, vec![0x84, 0, 0, (n >> 8) as u8, n as u8]));
+    v.push([tlv(0x02, vec![0x80]), vec![0, 0]].concat());
+    if thorough {
+        v.push([canon.clone(), canon.clone()].concat());
+        v.push(canon[..canon.len() / 2].to_vec());
+        v.push(canon[..2.min(canon.len())].to_vec());
+        v.push(tlv(0x02, vec![0x85, 0, 0, 0, (n >> 8) as u8, n as u8]));
+        v.push(tlv(0x02, vec![0x89, 0, 0, 0, 0, 0, 0, 0, (n >> 8) as u8, n as u8]));
+        // wrong tags: other universal types, constructed / context / application class, high tag number
+        for tag in [0x00u8, 0x01, 0x03, 0x04, 0x05, 0x0a, 0x0c, 0x22, 0x30, 0x42, 0x82, 0xa2, 0xc2, 0x1f, 0xff] {
+            v.push(tlv(tag, der_len(n)));
+        }
+        let t = c.word() as u8;
+        if t != 0x02 {
+            v.push(tlv(t, der_len(n)));
+        }
+    }
+    v
+}
+
+fn der_check_input<const L: usize>(c: &mut Ctx, input: &[u8])
+where
+    Uint<L>: ArrayEncoding,
+{
+    let bits = 64 * L as u32;
+    let exp = der_oracle(input, bits);
+    let input = input.to_vec();
+    check!(c, call(|| Uint::<L>::from_der(&input).ok().map(|r| ub(&r))), exp.clone(); input);
+    check!(c, call(|| AnyRef::from_der(&input).ok().and_then(|any| Uint::<L>::try_from(any).ok()).map(|r| ub(&r))), exp.clone(); input);
+    check!(c, call(|| UintRef::from_der(&input).ok().and_then(|u| Uint::<L>::try_from(u).ok()).map(|r| ub(&r))), exp; input);
+    // BER is more liberal about lengths: only totality, and a returned value must fit and be non-negative
+    no_panic!(c, call(|| Uint::<L>::from_ber(&input).ok().map(|r| ub(&r))); input);
+}
+
+fn der_decode<const L: usize>(c: &mut Ctx)
+where
+    Uint<L>: ArrayEncoding,
+{
+    let bits = 64 * L as u32;
+    let n = 8 * L;
+    // explicit short inputs
+    let explicit: Vec<Vec<u8>> = vec![
+        vec![],
+        vec![0x02],
+        vec![0x02, 0x00],
+        vec![0x02, 0x01],
+        vec![0x02, 0x80],
+        vec![0x02, 0x81],
+        vec![0x02, 0x81, 0x00],
+        vec![0x02, 0x81, 0x01, 0x00],
+        vec![0x02, 0x82, 0x00],
+        vec![0x02, 0x84, 0xff, 0xff, 0xff, 0xff],
+        vec![0x02, 0x88, 0xff, 0xff, 0xff, 0xff, 0xff, 0xff, 0xff, 0xff],
+        vec![0x02, 0xff],
+        vec![0x02, 0x01, 0x00],
+        vec![0x02, 0x01, 0x7f],
+        vec![0x02, 0x01, 0x80],
+        vec![0x02, 0x01, 0xff],
+        vec![0x02, 0x02, 0x00, 0x00],
+        vec![0x02, 0x02, 0x00, 0x7f],
+        vec![0x02, 0x02, 0x00, 0x80],
+        vec![0x02, 0x02, 0x00, 0xff],
+        vec![0x02, 0x02, 0xff, 0xff],
+        // the integer one octet longer than U64 (past defect: panicked in copy_from_slice)
+        vec![0x02, 0x09, 0x01, 0, 0, 0, 0, 0, 0, 0, 0],
+        vec![0x02, 0x09, 0x00, 0xff, 0, 0, 0, 0, 0, 0, 0],
+        vec![0x02, 0x0a, 0x00, 0xff, 0, 0, 0, 0, 0, 0, 0, 0],
+        vec![0x00],
+        vec![0xff],
+        vec![0x30, 0x03, 0x02, 0x01, 0x00],
+    ];
+    for input in &explicit {
+        der_check_input::<L>(c, input);
+    }
+    // the same one-octet-too-long shape for this width, with and without the sign octet
+    for lead in [vec![0x01u8], vec![0x00, 0x80], vec![0x00, 0x01], vec![0x80], vec![0xff]] {
+        for fill in [0x00u8, 0xff] {
+            let content = [lead.clone(), vec![fill; n]].concat();
+            let input = [vec![0x02], der_len(content.len()), content].concat();
+            der_check_input::<L>(c, &input);
+        }
+    }
+    // systematic contents x framings
+    for (i, content) in der_contents(c, n).iter().enumerate() {
+        if c.done() {
+            return;
+        }
+        let thorough = i % 7 == 0 || content.len() <= 2;
+        for input in der_framings(c, content, thorough) {
+            der_check_input::<L>(c, &input);
+        }
+        // the value part alone, through AnyRef with the INTEGER tag and with other tags
+        let exp = der_content_oracle(content, bits);
+        check!(c, call(|| AnyRef::new(Tag::Integer, content).ok().and_then(|any| Uint::<L>::try_from(any).ok()).map(|r| ub(&r))), exp; content);
+        if thorough {
+            for tag in [Tag::OctetString, Tag::BitString, Tag::Boolean, Tag::Enumerated, Tag::Null, Tag::Sequence] {
+                let none: Option<BigUint> = None;
+                check!(c, call(|| AnyRef::new(tag, content).ok().and_then(|any| Uint::<L>::try_from(any).ok()).map(|r| ub(&r))), none; content);
+            }
+        }
+        // a magnitude (UintRef strips zero padding): value if it fits, else error
+        let v = BigUint::from_bytes_be(content);
+        let exp = if v.bits() <= bits as u64 { Some(v) } else { None };
+        check!(c, call(|| UintRef::new(content).ok().and_then(|u| Uint::<L>::try_from(u).ok()).map(|r| ub(&r))), exp; content);
+    }
+    // mutations of valid encodings
+    let mut vals = c.edges(L, 48);
+    for _ in 0..(c.iters / 16).max(8) {
+        vals.push(c.rnd(L));
+    }
+    for a in vals {
+        if c.done() {
+            return;
+        }
+        let enc = canonical_der(&a);
+        let m = enc.len();
+        let mut pos = vec![0, 1, 2, 3, 4, m / 2, m - 2, m - 1, c.below(m)];
+        pos.retain(|&p| p < m);
+        pos.dedup();
+        for &p in &pos {
+            let mut del = enc.clone();
+            del.remove(p);
+            der_check_input::<L>(c, &del);
+            for b in [0x00u8, 0x01, 0x7f, 0x80, 0xff] {
+                let mut ins = enc.clone();
+                ins.insert(p, b);
+                der_check_input::<L>(c, &ins);
+                let mut set = enc.clone();
+                set[p] = b;
+                der_check_input::<L>(c, &set);
+            }
+            for bit in [0x01u8, 0x20, 0x80] {
+                let mut flip = enc.clone();
+                flip[p] ^= bit;
+                der_check_input::<L>(c, &flip);
+            }
+        }
+        let mut app = enc.clone();
+        app.push(c.word() as u8);
+        der_check_input::<L>(c, &app);
+    }
+    // random strings, mostly starting like an INTEGER
+    for _ in 0..c.iters / 2 {
+        if c.done() {
+            return;
+        }
+        let len = c.below(n + 8);
+        let mut input = rnd_bytes(c, len);
+        match c.below(4) {
+            0 => {}
+            1 => {
+                if len > 0 {
+                    input[0] = 0x02;
+                }
+            }
+            _ => {
+                input = [vec![0x02], der_len(len), input].concat();
+            }
+        }
+        der_check_input::<L>(c, &input);
+    }
+}
+
+// ---------------------------------------------------------------- RLP oracle
+
+fn rlp_len_bytes(n: usize) -> Vec<u8> {
+    let b = (n as u64).to_be_bytes();
+    let skip = b.iter().take_while(|&&x| x == 0).count();
+    b[skip..].to_vec()
+}
+
+fn canonical_rlp(v: &BigUint) -> Vec<u8> {
+    let m = magnitude(v);
+    if m.len() == 1 && m[0] < 0x80 {
+        m
+    } else if m.len() <= 55 {
+        [vec![0x80 + m.len() as u8], m].concat()
+    } else {
+        let l = rlp_len_bytes(m.len());
+        [vec![0xb7 + l.len() as u8], l, m].concat()
+    }
+}
+
+/// The first item of `input` as (item length, Some(v) iff the item is the canonical RLP of a v below
+/// 2^bits). `None` when the input does not start with a complete string item.
+fn rlp_oracle(input: &[u8], bits: u32) -> Option<(usize, Option<BigUint>)> {
+    let b0 = *input.first()?;
+    let (start, len) = match b0 {
+        0..=0x7f => (0usize, 1usize),
+        0x80..=0xb7 => (1, (b0 - 0x80) as usize),
+        0xb8..=0xbf => {
+            let ll = (b0 - 0xb7) as usize;
+            if input.len() < 1 + ll {
+                return None;
+            }
+            let mut len = 0usize;
+            for &x in &input[1..1 + ll] {
+                len = len.checked_mul(256)?.checked_add(x as usize)?;
+            }
+            (1 + ll, len)
+        }
+        _ => return None,
+    };
+    let end = start.checked_add(len)?;
+    if input.len() < end {
+        return None;
+    }
+    let v = BigUint::from_bytes_be(&input[start..end]);
+    let ok = v.bits() <= bits as u64 && canonical_rlp(&v) == input[..end];
+    Some((end, if ok { Some(v) } else { None }))
+}
+
+// ---------------------------------------------------------------- RLP cases
+
+fn rlp_encode<const L: usize>(c: &mut Ctx)
+where
+    Uint<L>: Encoding,
+{
+    let div = if L > 16 { 8 } else { 2 };
+    for a in codec_values(c, L, div) {
+        if c.done() {
+            return;
+        }
+        let x = bu::<L>(&a);
+        let exp = canonical_rlp(&a);
+        check!(c, call(|| rlp::encode(&x).to_vec()), exp.clone(); a);
+        check!(c, call(|| { let mut s = rlp::RlpStream::new(); s.append(&x); s.out().to_vec() }), exp.clone(); a);
+        // inside a list: payload = concatenation of the items
+        let y = bu::<L>(&(&a ^ mask(64 * L as u32)));
+        let expy = canonical_rlp(&(&a ^ mask(64 * L as u32)));
+        let payload = [exp.clone(), expy].concat();
+        let list = if payload.len() <= 55 {
+            [vec![0xc0 + payload.len() as u8], payload].concat()
+        } else {
+            let l = rlp_len_bytes(payload.len());
+            [vec![0xf7 + l.len() as u8], l, payload].concat()
+        };
+        check!(c, call(|| rlp::encode_list::<Uint<L>, _>(&[x, y]).to_vec()), list; a);
+    }
+}
+
+/// A complete string item in the long form (0xb8..=0xbf) whose length is below 56: non-canonical.
+/// These inputs have their own case (`rlp_long_form_short`), the general case skips them.
+fn is_long_form_short(input: &[u8]) -> bool {
+    match (input.first(), rlp_oracle(input, u32::MAX)) {
+        (Some(0xb8..=0xbf), Some((end, _))) => end - 1 - (input[0] - 0xb7) as usize <= 55,
+        _ => false,
+    }
+}
+
+fn rlp_check_input<const L: usize>(c: &mut Ctx, input: &[u8], long_form_short: bool)
+where
+    Uint<L>: Encoding,
+    <Uint<L> as Encoding>::Repr: Default,
+{
+    if is_long_form_short(input) != long_form_short {
+        return;
+    }
+    let bits = 64 * L as u32;
+    let input = input.to_vec();
+    let got = call(|| rlp::decode::<Uint<L>>(&input).ok().map(|r| ub(&r)));
+    match rlp_oracle(&input, bits) {
+        // exactly one item: Ok(v) iff canonical and fitting
+        Some((end, exp)) if end == input.len() => {
+            check!(c, got, exp; input);
+        }
+        // one item followed by more bytes: `rlp::decode` looks at the first item only; either an
+        // error or the value the first item canonically denotes
+        Some((_, exp)) => {
+            if no_panic!(c, got.clone(); input) {
+                let g = got.unwrap();
+                let _ = holds!(c, g.is_none() || g == exp, "Ok(v) only for the canonical encoding of a fitting v (first item)"; input, g, exp);
+            }
+        }
+        // no complete string item
+        None => {
+            let none: Option<BigUint> = None;
+            check!(c, got, none; input);
+        }
+    }
+}
+
+fn rlp_decode<const L: usize>(c: &mut Ctx)
+where
+    Uint<L>: Encoding,
+    <Uint<L> as Encoding>::Repr: Default,
+{
+    let n = 8 * L;
+    // round trip
+    for a in codec_values(c, L, 4) {
+        if c.done() {
+            return;
+        }
+        let enc = canonical_rlp(&a);
+        check!(c, call(|| rlp::decode::<Uint<L>>(&enc).ok().map(|r| ub(&r))), Some(a.clone()); a);
+        check!(c, call(|| rlp::Rlp::new(&enc).as_val::<Uint<L>>().ok().map(|r| ub(&r))), Some(a.clone()); a);
+        let x = bu::<L>(&a);
+        check!(c, call(|| rlp::decode::<Uint<L>>(&rlp::encode(&x)).ok().map(|r| ub(&r))), Some(a.clone()); a);
+        let y = bu::<L>(&(&a >> 9usize));
+        check!(c, call(|| rlp::Rlp::new(&rlp::encode_list::<Uint<L>, _>(&[x, y])).as_list::<Uint<L>>().ok().map(|v| v.iter().map(ub).collect::<Vec<_>>())), Some(vec![a.clone(), &a >> 9usize]); a);
+    }
+    let explicit: Vec<Vec<u8>> = vec![
+        vec![],
+        vec![0x00],
+        vec![0x01],
+        vec![0x7f],
+        vec![0x80],
+        vec![0x81],
+        vec![0x81, 0x00],
+        vec![0x81, 0x05],
+        vec![0x81, 0x7f],
+        vec![0x81, 0x80],
+        vec![0x81, 0xff],
+        vec![0x82, 0x00, 0x01],
+        vec![0x82, 0x01, 0x00],
+        vec![0x82, 0x01],
+        vec![0x83, 0x00, 0x00, 0x00],
+        vec![0xb7],
+        vec![0xb8],
+        vec![0xb8, 0x00],
+        vec![0xb8, 0x01],
+        vec![0xb8, 0x01, 0x05],
+        vec![0xb8, 0x01, 0x80],
+        vec![0xb8, 0x02, 0x01, 0x00],
+        vec![0xb9, 0x00],
+        vec![0xb9, 0x00, 0x01, 0x05],
+        vec![0xb9, 0x01, 0x00],
+        vec![0xbf, 0xff, 0xff, 0xff, 0xff, 0xff, 0xff, 0xff, 0xff],
+        vec![0xbf, 0x00, 0x00, 0x00, 0x00, 0x00, 0x00, 0x00, 0x01, 0x05],
+        vec![0xc0],
+        vec![0xc1, 0x01],
+        vec![0xc2, 0x01, 0x02],
+        vec![0xf8, 0x01, 0x05],
+        vec![0xff],
+    ];
+    for input in &explicit {
+        rlp_check_input::<L>(c, input, false);
+    }
+    // systematic payloads x framings
+    let mut lens: Vec<usize> = vec![0, 1, 2, 3, 54, 55, 56, 57, 255, 256, 257];
+    lens.extend(n.saturating_sub(2)..=n + 4);
+    lens.sort();
+    lens.dedup();
+    for len in lens {
+        for f0 in [0x00u8, 0x01, 0x05, 0x7f, 0x80, 0xff] {
+            for rest in 0..3 {
+                if c.done() {
+                    return;
+                }
+                let mut p: Vec<u8> = match rest {
+                    0 => vec![0u8; len],
+                    1 => vec![0xffu8; len],
+                    _ => rnd_bytes(c, len),
+                };
+                if len > 0 {
+                    p[0] = f0;
+                } else if f0 != 0 || rest != 0 {
+                    continue;
+                }
+                let l = rlp_len_bytes(len);
+                let mut framings: Vec<Vec<u8>> = Vec::new();
+                if len <= 55 {
+                    framings.push([vec![0x80 + len as u8], p.clone()].concat());
+                    framings.push([vec![0xc0 + len as u8], p.clone()].concat());
+                }
+                if len == 1 {
+                    framings.push(p.clone());
+                }
+                // long form with minimal and with zero-padded length
+                framings.push([vec![0xb7 + l.len().max(1) as u8], if l.is_empty() { vec![0] } else { l.clone() }, p.clone()].concat());
+                framings.push([vec![0xb8 + l.len() as u8], vec![0], l.clone(), p.clone()].concat());
+                framings.push([vec![0xf7 + l.len().max(1) as u8], if l.is_empty() { vec![0] } else { l.clone() }, p.clone()].concat());
+                let extra: Vec<Vec<u8>> = framings
+                    .iter()
+                    .flat_map(|f| {
+                        let mut t = vec![[f.clone(), vec![0x00]].concat(), [f.clone(), vec![0x80]].concat()];
+                        if f.len() > 1 {
+                            t.push(f[..f.len() - 1].to_vec());
+                            t.push(f[..f.len() / 2].to_vec());
+                        }
+                        t
+                    })
+                    .collect();
+                for input in framings.iter().chain(extra.iter()) {
+                    rlp_check_input::<L>(c, input, false);
+                }
+            }
+        }
+    }
+    // mutations of valid encodings and random strings
+    let mut vals = c.edges(L, 48);
+    for _ in 0..(c.iters / 16).max(8) {
+        vals.push(c.rnd(L));
+    }
+    for a in vals {
+        if c.done() {
+            return;
+        }
+        let enc = canonical_rlp(&a);
+        let m = enc.len();
+        let mut pos = vec![0, 1, 2, m / 2, m - 1];
+        pos.retain(|&p| p < m);
+        pos.dedup();
+        for &p in &pos {
+            let mut del = enc.clone();
+            del.remove(p);
+            rlp_check_input::<L>(c, &del, false);
+            for b in [0x00u8, 0x01, 0x7f, 0x80, 0xb8, 0xc0, 0xff] {
+                let mut ins = enc.clone();
+                ins.insert(p, b);
+                rlp_check_input::<L>(c, &ins, false);
+                let mut set = enc.clone();
+                set[p] = b;
+                rlp_check_input::<L>(c, &set, false);
+            }
+        }
+    }
+    for _ in 0..c.iters / 2 {
+        if c.done() {
+            return;
+        }
+        let len = c.below(n + 6);
+        let mut input = rnd_bytes(c, len);
+        if len > 0 && c.coin() {
+            input[0] = 0x80 + (len - 1).min(55) as u8;
+        }
+        rlp_check_input::<L>(c, &input, false);
+    }
+}
+
+/// The long-string form (0xb7 + length-of-length) used for a string shorter than 56 bytes is not
+/// canonical: must be an error.
+fn rlp_long_form_short<const L: usize>(c: &mut Ctx)
+where
+    Uint<L>: Encoding,
+    <Uint<L> as Encoding>::Repr: Default,
+{
+    let mut vals = vec![BigUint::from(5u8), BigUint::from(0x80u8), BigUint::from(0x100u32), BigUint::zero(), BigUint::one()];
+    vals.extend(c.edges(L, 40));
+    for _ in 0..(c.iters / 16).max(8) {
+        vals.push(c.rnd(L));
+    }
+    for a in vals {
+        let m = magnitude(&a);
+        if m.len() > 55 {
+            continue;
+        }
+        let one = [vec![0xb8, m.len() as u8], m.clone()].concat();
+        let two = [vec![0xb9, 0x00, m.len() as u8], m.clone()].concat();
+        let eight = [vec![0xbf, 0, 0, 0, 0, 0, 0, 0, m.len() as u8], m.clone()].concat();
+        for input in [one, two, eight] {
+            if c.done() {
+                return;
+            }
+            rlp_check_input::<L>(c, &input, true);
+        }
+    }
+}
+
+// ---------------------------------------------------------------- table
 
 pub fn cases() -> Vec<Case> {
-    Vec::new()
+    let mut v = Vec::new();
+    ucases!(v, "DER to_der/encoded_len/value_len/encode_to_slice canonical + from_der/TryFrom<AnyRef>/TryFrom<UintRef> round trip", der_encode; 1, 2, 3, 4, 6, 8, 16, 32, 64, 128);
+    ucases!(v, "DER from_der/TryFrom<AnyRef>/TryFrom<UintRef> arbitrary input", der_decode; 1, 2, 3, 4, 6, 8, 16, 32, 64, 128);
+    ucases!(v, "RLP rlp::encode/RlpStream::append/encode_list canonical", rlp_encode; 1, 2, 3, 4, 6, 8, 16, 32, 64, 128);
+    ucases!(v, "RLP rlp::decode/Rlp::as_val/as_list round trip and arbitrary input", rlp_decode; 1, 2, 3, 4);
+    ucases!(v, "RLP rlp::decode long-string form for a string below 56 bytes", rlp_long_form_short; 1, 2, 3, 4);
+    v
 }
